@@ -5,10 +5,10 @@ from pyvc.dsl import REG
 REG.bounded_check("C03.literal_membership", ["C03"], "C03.bounded",
                   covers=["pyanalyze.runtime.is_assignable", "GenericValue.can_assign", "SequenceValue.can_assign", "TypedDictValue.can_assign (literal dict branch)",
                           "SubclassValue.can_assign", "NewTypeValue.can_assign", "replace_known_sequence_value", "annotations.type_from_runtime"],
-                  bound="33 objects x 43 static types (depth <= 2): is_assignable(o, T) == member(o, T) for a reference membership function")
+                  bound="39 objects x 48 static types (depth <= 2): is_assignable(o, T) == member(o, T) for a reference membership function")
 REG.bounded_check("C04.type_pairs", ["C04"], "C04.bounded",
                   covers=["GenericValue.can_assign", "SequenceValue.can_assign", "TypedDictValue.can_assign", "SubclassValue.can_assign", "TypeObject.can_assign (via type_from_runtime values)"],
-                  bound="43 x 43 static types against 33 objects (accepted => membership inclusion), reflexivity / Never / object on 43 types, union laws on 14^3 triples; documented leniencies and known findings D23/D24 skipped")
+                  bound="48 x 48 static types against 39 objects (accepted => membership inclusion), reflexivity / Never / object on 43 types, union laws on 14^3 triples; documented leniencies and known findings D23/D24 skipped")
 REG.bounded_check("C14.union_and_substitution_laws", ["C14"], "C14.bounded",
                   covers=["annotate_value", "substitute_typevars of every Value class", "MultiValuedValue.__eq__", "Value.is_assignable on united operands", "member order of unite_values (C10)"],
                   bound="18 values: all pairs (idempotence, Never identity, members, commutativity, operand acceptance, first-occurrence order), triples over 12 (associativity); substitution: identity on 23 closed values x 3 maps, full replacement on 10 open values, commutation with uniting on 36 pairs")
@@ -35,7 +35,7 @@ REG.bounded_check("C18.layering", ["C18"], "C18.bounded",
                   bound="two chained config files x every subset of <= 3 of {command line, main a.b / a / top-level, base a.b / a / top-level} x extend_config first/last x 5 module paths, integer and list option; falsy and truthy command-line values over a config file")
 REG.bounded_check("C08.reference_resolver", ["C08"], "C08.bounded",
                   covers=["Signature.check_call_preprocessed / bind_arguments (as used by overload resolution)", "@overload collection (extensions.py, arg_spec.py)", "union decomposition (_check_param_type_compatibility)"],
-                  bound="7 overload sets (3 signatures, arity 1-2, overlapping and shadowed) x all literal argument tuples of length <= 2 over 5 literals; union arguments passed positionally and by keyword, one Any-argument case")
+                  bound="7 overload sets (3 signatures, arity 1-2, overlapping and shadowed) x all literal argument tuples of length <= 2 over 5 literals; union arguments passed positionally and by keyword, a two-argument set where an earlier overload takes part of the union but rejects the other argument, unions with an Any member, one Any-argument case")
 REG.bounded_check("C20.reference_denotation", ["C20"], "C20.bounded",
                   covers=["ConditionEvaluator.visit_is_of_type / visit_BoolOp / visit_Compare", "EvaluateVisitor.visit_show_error / _evaluate_ret", "arg_spec._maybe_make_evaluator_sig", "signature argument positions"],
                   bound="8 evaluator bodies (if / nested if / not / and / or over is_of_type and is_provided, return, show_error) x {literal int, literal str, Union[int, str]} x {y omitted, positional, keyword}; 4 bodies over two union parameters (and / or / not with a nested condition) x 9 argument pairs; 8 calls on the UNKNOWN / KEYWORD / POSITIONAL / DEFAULT kinds of keyword-only and positional-only parameters with defaults")
@@ -45,7 +45,7 @@ REG.bounded_check("C01.instrumented_execution", ["C01"], "C01.bounded",
                   bound="14 programs x 1-4 argument tuples: every evaluated Name/Subscript/Call/BinOp/IfExp/BoolOp/Compare node's runtime value must belong to its inferred type (annotate_code)")
 REG.bounded_check("C10.determinism", ["C10"], "C10.bounded",
                   covers=["the whole checker on the corpus: union member order, listed names, message text"],
-                  bound="13 source files (format mapping keys, unexpected keywords, or/and narrowing, `in` narrowing, unused variables, branch unions, protocols, overloads, try/with definitions, nested functions, stdlib calls) x PYTHONHASHSEED in {0,1,2,3,7} in fresh subprocesses; two check orders in one process; one Checker shared by all files (both orders) against the fresh-Checker baseline; module-name tokens normalised")
+                  bound="15 source files (format mapping keys, unexpected keywords, or/and narrowing, `in` narrowing, unused variables, branch unions, protocols, overloads, try/with definitions, nested functions, stdlib calls, iterator classes) x PYTHONHASHSEED in {0,1,2,3,5,7} in fresh subprocesses (full rendered messages compared); two check orders in one process; one Checker shared by all files (both orders) against the fresh-Checker baseline; 2 non-importable scripts checked without a module object, alone and after each other; module-name tokens normalised")
 REG.bounded_check("C19.literal_operations", ["C19"], "C19.bounded",
                   covers=["NameCheckVisitor.visit_BinOp / visit_UnaryOp / _check_dunder_call", "signature._maybe_perform_call", "attributes._get_attribute_from_known / _get_attribute_from_mro",
                           "implementation subscript impls (tuple / str / list __getitem__)"],
@@ -57,7 +57,7 @@ REG.bounded_check("C09.scope_primitives", ["C09"], "C09.prims",
 REG.bounded_check("C09.sandwich", ["C09"], "C09.bounded",
                   covers=["NameCheckVisitor.visit_If / visit_For / visit_While / _handle_loop_else / visit_Try / visit_try_except / visit_With / visit_Break / visit_Continue / visit_Return / visit_Raise",
                           "FunctionScope.suppressing_subscope / loop_scope / combine_subscopes / get_local", "resolve_name undefined / possibly undefined reporting"],
-                  bound="1200 (quick) / 7500 (thorough) generated statement skeletons of nesting depth <= 2-4 (assignments of distinct literals, opaque conditions, if/else, while/for with else, while True, break/continue, "
+                  bound="82 systematically built skeletons (a guarded assignment followed by each kind of jump inside each block context) + 1200 (quick) / 7500 (thorough) generated statement skeletons of nesting depth <= 2-4 (assignments of distinct literals, opaque conditions, if/else, while/for with else, while True, break/continue, "
                         "try/except/else/finally, with, return/raise as last statement of a block; one variable; nested functions and global/nonlocal not generated): strict <= reported <= liberal against an independent "
                         "reaching-definitions analysis; mismatches explained by the edges of known findings D36-D39 are counted, not reported")
 REG.bounded_check("C02.conditions", ["C02"], "C02.conditions",
@@ -69,19 +69,19 @@ REG.bounded_check("C05.binding", ["C05"], "C05.bounded",
                   covers=["Signature.bind_arguments", "signature.preprocess_args (literal * / ** arguments, merging)", "arg_spec.ArgSpecCache.from_signature (def statements)", "the visitor's call-site argument collection"],
                   bound="180 def signatures (<= 4 parameters: positional-only, positional-or-keyword, *args, keyword-only, **kwargs, every default pattern) x 140 sampled (quick) / all 512 (thorough) call shapes "
                         "(<= 3 positionals, <= 2 keywords, optional *tuple-literal and **dict-literal): incompatible_call <=> calling the real function raises TypeError; "
-                        "86 signatures (<= 3 parameters) x 11 shapes with list[int] / tuple[int, ...] / dict[str, int] star-arguments: accepted => some expansion (lengths 0-4) binds, "
-                        "rejected => no expansion taking an element from every star-argument binds (known finding D44 skipped)")
+                        "148 signatures (<= 3 parameters) x 11 shapes with list[int] / tuple[int, ...] / dict[str, int] star-arguments: accepted => some expansion (lengths 0-4) binds, "
+                        "rejected => no expansion taking an element from every star-argument binds (known finding D44 skipped), including a **mapping keyed by a str subclass; 7 signatures with dunder-named parameters of every kind x 11 call shapes")
 REG.bounded_check("C05.validate", ["C05"], "C05.validate",
                   covers=["Signature.validate (cross-check of the proved kernel against CPython's parameter rules)"], bound="all parameter lists of <= 3 parameters over 5 kinds x default / required")
 REG.bounded_check("C07.shape_inclusion", ["C07"], "C07.bounded",
-                  covers=["Signature.can_assign", "can_assign_var_positional / can_assign_var_keyword (cross-check)", "arg_spec signatures of def statements"],
-                  bound="86 x 86 pairs of def signatures (<= 3 parameters of all kinds / default patterns): accepted => every one of 40 call shapes (<= 3 positionals, <= 3 keywords) that binds to the expected "
-                        "function binds to the actual one (real calls); 16 x 16 typed pairs over bool/int/object/str: accepted <=> parameter contravariance and return covariance (known finding D5 skipped)")
+                  covers=["Signature.can_assign", "can_assign_var_positional / can_assign_var_keyword (cross-check)", "arg_spec signatures of def statements", "NameCheckVisitor._check_for_incompatible_overrides / _get_base_class_attributes / _can_assign_to_base_callable, bind_self"],
+                  bound="148 x 148 pairs of def signatures (<= 3 parameters of all kinds / default patterns): accepted => every one of 40 call shapes (<= 3 positionals, <= 3 keywords) that binds to the expected "
+                        "function binds to the actual one (real calls); 16 x 16 typed pairs over bool/int/object/str: accepted <=> parameter contravariance and return covariance; 179 method overrides (13 x 13 method signatures, double inheritance, functions assigned in the class body): incompatible_override <=> some of 32 call shapes binds to a base method and fails on the override (known finding D5 skipped)")
 REG.bounded_check("C06.calls", ["C06"], "C06.bounded",
                   covers=["Signature.check_call_with_bound_args (generic pre-pass, resolve_bounds_map, return substitution)", "Signature._check_param_type_compatibility (cross-check)", "arg_spec constructor / dataclass / bound-method signatures, bind_self",
                           "the inferred type of the call against the runtime result"],
-                  bound="391 calls: 11 single-parameter functions and methods (int, str, float, Optional, Union, List, Tuple, object; instance / class / static method) x 10 literals; two-parameter, defaulted, *args: int, "
-                        "**kwargs: str functions and a dataclass constructor x 36 literal pairs; 5 TypeVar-generic functions (unbounded, bound, constrained); ill-typed defaults passed explicitly; constructors through a Python-level __new__ with annotated cls: diagnosed <=> some argument outside its declared type (PEP 484 promotions), "
+                  bound="405 calls: 11 single-parameter functions and methods (int, str, float, Optional, Union, List, Tuple, object; instance / class / static method) x 10 literals; two-parameter, defaulted, *args: int, "
+                        "**kwargs: str functions and a dataclass constructor x 36 literal pairs; 5 TypeVar-generic functions (unbounded, bound, constrained); ill-typed defaults passed explicitly; constructors through a Python-level __new__ with annotated cls; several star-arguments of unknown length in one call; generic callbacks sharing a TypeVar: diagnosed <=> some argument outside its declared type (PEP 484 promotions), "
                         "and the value returned by executing the call belongs to the inferred type")
 REG.bounded_check("C12.totality", ["C12"], "C12.bounded",
                   covers=["NameCheckVisitor on generated modules (catch-all, location extraction, context rendering)", "annotations._Visitor on odd annotations", "Value.can_assign / is_assignable / unite_values / substitute_typevars / can_overlap / __eq__ / __hash__ / __str__ on generated values"],
